@@ -113,7 +113,7 @@ type Op struct {
 	Reuse       bool        `json:"reuse,omitempty"`        // send the very *http.Request value of this client's previous identical operation again (a polling loop)
 	EmptyMethod bool        `json:"empty_method,omitempty"` // send the GET with Method "" (what a struct-literal http.Request has)
 	OddURL      string      `json:"odd_url,omitempty"`      // a request URL of unusual shape (relative, IPv6 zone, no host, opaque ...) for a path no resource owns: the origin refuses it
-	Admin       string      `json:"admin,omitempty"`        // "" | "restart" | "crash" | "corrupt" | "dump" | "evict"
+	Admin       string      `json:"admin,omitempty"`        // "" | "restart" | "crash" | "corrupt" | "dump" | "evict" | "clock-step" (AdminArg: seconds, signed)
 	AdminArg    int         `json:"admin_arg,omitempty"`
 }
 
